@@ -106,9 +106,9 @@ def loopStmt : Stmt :=
   | _ => .skip
 
 structure LoopEnv (env : Env) (payload : Bytes) (h : Header) (i : Nat) (acc : List Ann) : Prop where
-  hi : env.lookup "i" = some (.int i)
+  hi : env.lookup "v0" = some (.int i)
   hanns : env.lookup "self.annotations" = some (.dict acc)
-  hp : env.lookup "payload" = some (.bytes payload)
+  hp : env.lookup "p1" = some (.bytes payload)
   hA : env.lookup "self.annotations_size" = some (.int h.annSize)
   hD : env.lookup "self.data_size" = some (.int h.dataSize)
   hF : env.lookup "self.flags" = some (.int h.flags)
@@ -156,11 +156,11 @@ theorem loop_ok (cfg : PyIR.Cfg) (payload : Bytes) (h : Header) :
         have hl0 : (0 : Int) ≤ ↑i + 8 + ↑len := by omega
         have hl8 : ((i : Int) + 8 + (len : Int)).toNat = i + 8 + len := by omega
         have el : i + 8 + len - (i + 8) = len := by omega
-        let env' : Env := ("i", Val.int ((i : Int) + (8 + (len : Int)))) ::
+        let env' : Env := ("v0", Val.int ((i : Int) + (8 + (len : Int)))) ::
           ("self.annotations", Val.dict (dictSet acc (List.map UInt8.toNat (List.take 4 (List.drop i payload)))
             (List.take len (List.drop (i + 8) payload)))) ::
-          ("length", Val.int (len : Int)) ::
-          ("annotation_id", Val.str (List.map UInt8.toNat (List.take 4 (List.drop i payload)))) :: env
+          ("v2", Val.int (len : Int)) ::
+          ("v1", Val.str (List.map UInt8.toNat (List.take 4 (List.drop i payload)))) :: env
         have ok' : LoopEnv env' payload h (i + 8 + len)
             (dictSet acc (List.map UInt8.toNat (List.take 4 (List.drop i payload))) (List.take len (List.drop (i + 8) payload))) :=
           ⟨by simp [env', List.lookup_cons]; omega, by simp [env', List.lookup_cons], by simp [env', List.lookup_cons, ok.hp],
@@ -246,7 +246,7 @@ theorem addPayload_gen (z : Zlib) (cfg : PyIR.Cfg) (h : Header) (payload : Bytes
       simp [Wire.addPayload, hlen, hA, walkAnns, tailSpec]
       first | rfl | (split <;> rfl)
     · have hA0 : ((h.annSize : Int) != 0) = true := by simp; omega
-      have ok0 : LoopEnv (("i", Val.int 0) :: ("self.annotations", Val.dict []) :: ("payload", Val.bytes payload) :: initEnv h payload)
+      have ok0 : LoopEnv (("v0", Val.int 0) :: ("self.annotations", Val.dict []) :: ("p1", Val.bytes payload) :: initEnv h payload)
           payload h 0 [] :=
         ⟨by simp [List.lookup_cons], by simp [List.lookup_cons], by simp [List.lookup_cons], by simp [initEnv, List.lookup_cons],
          by simp [initEnv, List.lookup_cons], by simp [initEnv, List.lookup_cons], by simp [initEnv, List.lookup_cons]⟩
